@@ -399,3 +399,14 @@ Print Assumptions gen_btreeset_is_dec_TSet.
 Print Assumptions gen_vec_is_dec_TList.
 Print Assumptions gen_builder_build_eq.
 Print Assumptions gen_decoder_decode_next_eq.
+
+(** [register_anonymous_variable_length_item]: a function-local type whose impl says "variable" *)
+Theorem gen_builder_register_anonymous_eq s :
+  omap (fun s' => (Gen.SszDecoderBuilder_bytes s', st_abs s')) (Gen.builder_register_anonymous s)
+  = omap (fun st => (Gen.SszDecoderBuilder_bytes s, st)) (register (Gen.SszDecoderBuilder_bytes s) (st_abs s) false BYTES_PER_LENGTH_OFFSET).
+Proof.
+  unfold Gen.builder_register_anonymous. change Gen.decode_default_ssz_fixed_len with (Ok BYTES_PER_LENGTH_OFFSET : outcome N). cbn [bind].
+  rewrite <- (gen_builder_register_type_eq s false BYTES_PER_LENGTH_OFFSET).
+  destruct (Gen.builder_register_type false BYTES_PER_LENGTH_OFFSET s); reflexivity.
+Qed.
+Print Assumptions gen_builder_register_anonymous_eq.
